@@ -114,6 +114,9 @@ class HashedIterable(Generic[T]):
         """
         yield from self.values.values()
         for v in self.iterable:
+            if v.id_ in self.values:
+                # already memoised (and yielded above): a repeated item must not be yielded on the first pass only
+                continue
             self.values[v.id_] = v
             yield v
 
